@@ -64,13 +64,15 @@ SOURCE = {
 }
 
 
-def expected(kind: str, isdir: bool | None, rec: bool | None, full: bool, root: bool | None) -> list[list[Exp]]:
-    """Acceptable emission sequences (a list of alternatives: one per undetermined mode bit that matters)."""
+def expected(kind: str, isdir: bool | None, rec: bool | None, full: bool, root: bool | None) -> list[tuple[bool | None, list[Exp]]]:
+    """Acceptable emission sequences as (is_directory value used, sequence): one alternative per value of an *undetermined* mode
+    bit (is_directory, recursive, root) that the contract depends on.  A path that leaves such a bit undetermined has to meet
+    every alternative at once, which is impossible unless they coincide."""
 
-    def alt(rec_: bool | None, root_: bool | None) -> list[Exp]:
+    def alt(isdir_: bool | None, rec_: bool | None, root_: bool | None) -> list[Exp]:
         if kind == "tuple":
             seq = [Exp("E", "Moved", "entry", (("self", "ev[0]"), ("self", "ev[1]"))), PARENT("ev[0]"), PARENT("ev[1]")]
-            if isdir and rec_:
+            if isdir_ and rec_:
                 seq.append(Exp("G", gen="generate_sub_moved_events", roles=(("self", "ev[0]"), ("self", "ev[1]"))))
             return seq
         if kind == "is_moved_to":
@@ -78,7 +80,7 @@ def expected(kind: str, isdir: bool | None, rec: bool | None, full: bool, root: 
                 Exp("E", "Moved", "entry", (("empty",), ("self", "ev"))) if full else Exp("E", "Created", "entry", (("self", "ev"),))
             )
             seq = [first, PARENT("ev")]
-            if isdir and rec_:
+            if isdir_ and rec_:
                 seq.append(Exp("G", gen="generate_sub_created_events", roles=(("self", "ev"),)))
             return seq
         if kind in ("is_attrib", "is_modify"):
@@ -92,21 +94,27 @@ def expected(kind: str, isdir: bool | None, rec: bool | None, full: bool, root: 
         if kind == "is_delete_self":
             return [Exp("E", "Deleted", "entry", (("self", "ev"),)), Exp("STOP")] if root_ else []
         if kind == "is_open":
-            return [] if isdir else [Exp("E", "Opened", "File", (("self", "ev"),))]
+            return [] if isdir_ else [Exp("E", "Opened", "File", (("self", "ev"),))]
         if kind == "is_close_write":
-            return [] if isdir else [Exp("E", "Closed", "File", (("self", "ev"),)), PARENT("ev")]
+            return [] if isdir_ else [Exp("E", "Closed", "File", (("self", "ev"),)), PARENT("ev")]
         if kind == "is_close_nowrite":
-            return [] if isdir else [Exp("E", "ClosedNoWrite", "File", (("self", "ev"),))]
+            return [] if isdir_ else [Exp("E", "ClosedNoWrite", "File", (("self", "ev"),))]
         return []
 
+    isdirs = [isdir] if isdir is not None else [True, False]
     recs = [rec] if rec is not None else [True, False]
     roots = [root] if root is not None else [True, False]
-    alts = []
-    for r in recs:
-        for ro in roots:
-            a = alt(r, ro)
-            if a not in alts:
-                alts.append(a)
+    alts: list[tuple[bool | None, list[Exp]]] = []
+    concrete: list[list[tuple]] = []
+    for d in isdirs:
+        for r in recs:
+            for ro in roots:
+                a = alt(d, r, ro)
+                # two alternatives coincide when they demand the same concrete classes / roles
+                key = [(x.kind, x.cls(d) if x.kind == "E" else x.gen, x.roles) for x in a]
+                if key not in concrete:
+                    concrete.append(key)
+                    alts.append((d, a))
     return alts
 
 
